@@ -23,6 +23,7 @@ import LemoModel.Frame
     closefacts <n>                 -> `ok` iff the fact table Close.closeSites has n rows, else `table-mismatch`
     closefact <row>                -> `ok` iff <row> (stmt|function|guard) is a row of the table, else `table-mismatch`
     closehammer <k>                -> outcome of k simultaneous closers under the table's locking discipline
+    sigorder <n> / sigorderrow <row> -> statement order over sigs[i] in types.recoverSigners (SigGuard.order)
     sitefacts <n> / sitefact <row> -> same for the panic-site inventory Sites.table (function|kind|expression);
                                       duplicate rows are matched with multiplicity through the count
 -/
@@ -111,6 +112,12 @@ def step (s : St) (w : List String) : St × String :=
     | none => (s, "bad-op")
   | ["sitefact", row] =>
     (s, if (Sites.table.map Sites.Row.row).contains row then "ok" else "table-mismatch")
+  | ["sigorder", n] =>
+    match n.toNat? with
+    | some n => (s, if n = SigGuard.order.length then "ok" else "table-mismatch")
+    | none => (s, "bad-op")
+  | ["sigorderrow", row] =>
+    (s, if (SigGuard.order.map SigGuard.Row.row).contains row then "ok" else "table-mismatch")
   | ["closehammer", k] =>
     match k.toNat? with
     | some k =>
